@@ -56,7 +56,11 @@ NamingShapes == <<
   With("n.ovr.both", <<Leaf, Msg("Root", <<MsgF("Sub", 1, "Leaf"), MsgF("Sub2", 2, "Leaf")>>, <<>>)>>,
        Ovr(<<KV("Leaf.Str", "ovr_tn"), KV("Root.Sub.Str", "ovr_path")>>)),
   With("n.ovr.list.elem", <<Leaf, Msg("Root", <<Rep(MsgF("Subs", 1, "Leaf")), MapOf(MsgF("Dict", 2, "Leaf"))>>, <<>>)>>,
-       Ovr(<<KV("Root.Subs.Str", "ovr_list"), KV("Root.Dict.Str", "ovr_map")>>)) >>
+       Ovr(<<KV("Root.Subs.Str", "ovr_list"), KV("Root.Dict.Str", "ovr_map")>>)),
+  \* the same key forms when the generated code lives in a package of its own (default_package_name set): a Message.field key
+  \* names the message, never its Go package
+  With("n.ovr.tn.sep", <<Leaf, Msg("Root", <<MsgF("Sub", 1, "Leaf"), Rep(MsgF("Subs", 2, "Leaf")), Fld("Str", 3, "string")>>, <<>>)>>,
+       [Ovr(<<KV("Leaf.Str", "ovr_tn"), KV("Root.Sub.Num", "ovr_path"), KV("Root.Str", "ovr_root")>>) EXCEPT !.separate = TRUE]) >>
 
 \* the type table decides by the WHOLE cast type name: a named integer whose name merely ends in the configured
 \* duration cast type (or in "Duration" / "Time") is an integer
@@ -571,7 +575,10 @@ SepSel == <<ScalarShapes[8], ScalarShapes[6], ScalarShapes[10], ScalarShapes[13]
             CastBuiltin, Dotted(DeepShapes[1]), Dotted(ObjShapes[1]),
             \* duration_custom_type names a cast type by its bare name, wherever the generated code lives
             CastNameShapes[1],
-            Shape("s.pkgcomment", Desc(<<Msg("Root", <<Commented(Fld("Str", 1, "string"), ComPkg), Commented(Fld("Num", 2, "int32"), Com1)>>, <<>>)>>), BaseCfg)>>
+            Shape("s.pkgcomment", Desc(<<Msg("Root", <<Commented(Fld("Str", 1, "string"), ComPkg), Commented(Fld("Num", 2, "int32"), Com1)>>, <<>>)>>), BaseCfg),
+            \* field-addressed options keyed by Message.field and by path, on a nested message
+            Shape("s.keyed", Desc(<<Leaf, Msg("Root", <<MsgF("Sub", 1, "Leaf"), Rep(MsgF("Subs", 2, "Leaf")), Fld("Str", 3, "string")>>, <<>>)>>),
+                  [BaseCfg EXCEPT !.nameoverrides = <<KV("Leaf.Str", "ovr_tn"), KV("Root.Sub.Num", "ovr_path")>>, !.sensitive = <<"Leaf.Num">>, !.required = <<"Root.Str">>])>>
 
 SepTriple(sp) ==
   LET pr(role) == [key |-> "c13." \o sp.id, role |-> role, clause |-> "C13.same_behaviour", prop |-> "C13", exclkey |-> ""]
@@ -587,7 +594,10 @@ SepTriple(sp) ==
        \* the target package is NAMED like the struct package (another directory, the same package name)
        mk("4sepname", [sp.cfg EXCEPT !.separate = TRUE, !.samename = TRUE], "variant"),
        \* the import path of the struct package has capital letters, every letter of the message names among them
-       mk("5sepcaps", [sp.cfg EXCEPT !.separate = TRUE, !.capsimport = TRUE], "variant")>>
+       mk("5sepcaps", [sp.cfg EXCEPT !.separate = TRUE, !.capsimport = TRUE], "variant"),
+       \* default_package_name is a full import path where the structs USED to live; import_path_overrides, keyed by that
+       \* full path, redirects it to where they are
+       mk("6seplegacy", [sp.cfg EXCEPT !.separate = TRUE, !.legacyoverride = TRUE], "variant")>>
 
 GenSepShapes == FlattenSeq([i \in DOMAIN SepSel |-> SepTriple(SepSel[i])])
 
@@ -728,4 +738,8 @@ CustomShapes == <<
   \* two custom types which share their last name component: the suffixes entry of the bare one is not the other's
   With("u.cfg.samename", <<Msg("Root", <<Fld("Cust", 1, "string"), Fld("Extra", 2, "string"), Fld("Str", 3, "string")>>, <<>>)>>,
        CustCfg(<<KV("Root.Cust", "Traits"), KV("Root.Extra", "ext/wrappers.Traits"), KV("Root.Str", "wrappers.Traits")>>, <<KV("Traits", "LocalTraits")>>)) >>
+
+\* the mapping family also generates and COMPILES custom-type fields (C01: whatever declares the type - the proto option or the
+\* configuration - the hooks called are the ones the suffix rule names)
+GenMapShapesAll == GenMapShapes \o <<CustomShapes[1], CustomShapes[3], CustomShapes[5], CustomShapes[8]>>
 =============================================================================
